@@ -4,7 +4,7 @@
 # 2. runs every quick check against the mutant applied to a scratch clone of /repo (snapshot of /verif built against it)
 # 3. files it under /verif/seeded/<seed-id>/
 set -u
-SRC="$1"; SID="$2"; PROP="$3"
+SRC="$(realpath "$1")"; SID="$2"; PROP="$3"
 # isolated snapshot (own clone of /repo at HEAD, own copy of the committed-or-not /verif) so that
 # evaluation never touches /repo's working tree: SE_ROOT/{repo,verif}; refresh with SE_REFRESH=1
 SE_ROOT="${SE_ROOT:-/tmp/se}"
